@@ -2,6 +2,9 @@ package checks
 
 import (
 	"fmt"
+	"strings"
+
+	"github.com/opsidian/parsley/combinator"
 	"github.com/opsidian/parsley/parsley"
 
 	"verifharness/internal/gram"
@@ -68,9 +71,38 @@ func c02case(c GCase, a *run.Acc) {
 	a.SetMax(fmt.Sprintf("activation depth at remaining=%02d", rem), int64(gd.MaxDepth))
 }
 
+// c02deepNesting: the classic arithmetic grammar (E -> E + T | T, T -> T * F | F, F -> ( E ) | n, all memoized,
+// NO probes: nothing but library frames on the stack) on k nested parentheses, under Go's default stack limit.
+// The activation bound holds on it, but the bounded re-entries of all open brackets are on the stack at the same
+// time (quadratic in the nesting depth): see known finding K2.
+func c02deepNesting(j run.Job, a *run.Acc) {
+	if !a.Begin() {
+		return
+	}
+	k := j.Param("depth", 447)
+	g := gram.New("ptocn", 3)
+	g.NTs[0] = g.Mk(gram.OpAny, g.Mk(gram.OpSeqOf, g.Ref(0), g.Rune('p'), g.Ref(1)), g.Ref(1))
+	g.NTs[1] = g.Mk(gram.OpAny, g.Mk(gram.OpSeqOf, g.Ref(1), g.Rune('t'), g.Ref(2)), g.Ref(2))
+	g.NTs[2] = g.Mk(gram.OpAny, g.Mk(gram.OpSeqOf, g.Rune('o'), g.Ref(0), g.Rune('c')), g.Rune('n'))
+	in := strings.Repeat("o", k) + "n" + strings.Repeat("c", k)
+	env := gram.NewEnv(in)
+	b := gram.Build(g, nil)
+	a.Count("deep-nesting cases (library frames only, default stack limit)", 1)
+	node, err := parsley.Parse(env.Ctx, combinator.Sentence(b.NTs[0])) // a stack overflow here is fatal: the driver sees it
+	if node == nil || err != nil {
+		a.Violate("deep-nesting-not-parsed", "deep-nesting-not-parsed", map[string]any{"nesting": k, "error": fmt.Sprint(err)})
+		return
+	}
+	a.Count("deep-nesting cases that returned", 1)
+	a.SetMax("nesting depth parsed without exhausting the stack", int64(k))
+}
+
 func c02plan(tier string, seed int64) []run.Job {
 	var jobs []run.Job
 	jobs = append(jobs, run.Job{Family: "corpus"})
+	// isolated: each of these runs in a worker process of its own (the second one is known to kill it, K2)
+	jobs = append(jobs, run.Job{Family: "deep-nesting", S: "arithmetic-255-nested-brackets", P: map[string]int{"depth": 255, "isolated": 1}})
+	jobs = append(jobs, run.Job{Family: "deep-nesting", S: "arithmetic-447-nested-brackets", P: map[string]int{"depth": 447, "isolated": 1}})
 	for i := 0; i < 8; i++ {
 		jobs = append(jobs, run.Job{Family: "long", Seed: seed*100000 + 90000 + int64(i), N: 40})
 	}
@@ -108,6 +140,10 @@ func init() {
 		Title: "Every memoized grammar terminates with bounded re-entry per position",
 		Plan:  c02plan,
 		Exec: func(j run.Job, a *run.Acc) {
+			if j.Family == "deep-nesting" {
+				c02deepNesting(j, a)
+				return
+			}
 			gramCases(j, func(c GCase) { c02case(c, a) })
 		},
 		Finish: func(tier string, a *run.Acc, cov map[string]any) string {
